@@ -83,6 +83,12 @@ def label(shape, conds, counter=None):
     return [conds[i], f"t{i}", ref, alt]
 
 
+def _has_ref_and_alt(node):
+    if node is None:
+        return False
+    return (node[2] is not None and node[3] is not None) or _has_ref_and_alt(node[2]) or _has_ref_and_alt(node[3])
+
+
 def _longest_alt_chain(node):
     if node is None:
         return 0
@@ -126,7 +132,7 @@ def floors(tier):
     return {"distinct_nontrivial": 300, "re:ExceptIf(@.*)?\\.enter": 500, "re:Alternative(@.*)?\\.enter": 500,
             "cls:shape:ref_in_ref": 20, "cls:shape:ref_in_alt": 20, "cls:shape:alt_in_ref": 20, "cls:shape:alt_chain": 20,
             "cls:overridden": 200, "cls:alt_fired": 200, "cls:caching_off": 50,
-            "cls:style:sibling_alternatives": 200, "re:cls:longest_alternative_chain=[3-9]": 50}
+            "cls:style:sibling_alternatives": 200, "cls:alternative_declared_before_refinement": 200, "re:cls:longest_alternative_chain=[3-9]": 50}
 
 
 def gen_case(rng):
@@ -134,7 +140,8 @@ def gen_case(rng):
     sh = rng.choice(shapes(n))
     conds = [[rng.choice("abc"), rng.randint(0, 3)] for _ in range(n)]
     data = [[rng.randint(1, 4) for _ in range(3)] for _ in range(rng.randint(3, 7))]
-    return {"tree": label(sh, conds), "data": data, "caching": rng.random() < 0.7, "sibling": rng.random() < 0.5}
+    return {"tree": label(sh, conds), "data": data, "caching": rng.random() < 0.7, "sibling": rng.random() < 0.5,
+            "alt_first": rng.random() < 0.4}
 
 
 def cases(spec, ctx):
@@ -144,6 +151,8 @@ def cases(spec, ctx):
                 yield {"tree": tree, "data": "cube", "caching": (i // spec["stride"]) % 5 != 0}
                 if _longest_alt_chain(tree) >= 2:
                     yield {"tree": tree, "data": "cube", "caching": True, "sibling": True}
+                if _has_ref_and_alt(tree):
+                    yield {"tree": tree, "data": "cube", "caching": True, "alt_first": True, "sibling": (i // spec["stride"]) % 2 == 0}
         return
     for i in range(spec["n"]):
         yield gen_case(ctx.rng(spec["sub"], i))
@@ -172,28 +181,40 @@ def expected(case, objs):
 
 
 # ------------------------------------------------------------------------------------------------ real code
-def _build_branch(node, x, out, sibling=False, with_alt=True):
+def _build_branch(node, x, out, sibling=False, with_alt=True, alt_first=False):
     """sibling=False: every alternative is declared inside the `with` block of the branch before it (nested style);
     sibling=True : the alternatives of a chain are declared one after the other at the same level (the style of the
-    repository's own tests).  Both spell the same ripple-down tree."""
+    repository's own tests).  alt_first: a branch's alternatives are declared before its refinement.
+    All spellings describe the same ripple-down tree."""
     from entity_query_language import Add
     from entity_query_language.rule import refinement, alternative
     cond, tag, ref, alt = node
     Add(out, Out(tag=tag, src=x))
-    if ref is not None:
-        with refinement(getattr(x, ref[0][0]) > ref[0][1]):
-            _build_branch(ref, x, out, sibling)
-    if not with_alt:
-        return
-    if not sibling:
-        if alt is not None:
-            with alternative(getattr(x, alt[0][0]) > alt[0][1]):
-                _build_branch(alt, x, out, sibling)
-        return
-    while alt is not None:
-        with alternative(getattr(x, alt[0][0]) > alt[0][1]):
-            _build_branch(alt, x, out, sibling, with_alt=False)
-        alt = alt[3]
+
+    def declare_refinement():
+        if ref is not None:
+            with refinement(getattr(x, ref[0][0]) > ref[0][1]):
+                _build_branch(ref, x, out, sibling, alt_first=alt_first)
+
+    def declare_alternatives():
+        a = alt
+        if not with_alt or a is None:
+            return
+        if not sibling:
+            with alternative(getattr(x, a[0][0]) > a[0][1]):
+                _build_branch(a, x, out, sibling, alt_first=alt_first)
+            return
+        while a is not None:
+            with alternative(getattr(x, a[0][0]) > a[0][1]):
+                _build_branch(a, x, out, sibling, with_alt=False, alt_first=alt_first)
+            a = a[3]
+
+    if alt_first:
+        declare_alternatives()
+        declare_refinement()
+    else:
+        declare_refinement()
+        declare_alternatives()
 
 
 def build(case, objs):
@@ -205,7 +226,7 @@ def build(case, objs):
         out = let(Out)
         q = infer(entity(out, getattr(x, tree[0][0]) > tree[0][1]))
     with rule_mode(q):
-        _build_branch(tree, x, out, sibling=bool(case.get("sibling")))
+        _build_branch(tree, x, out, sibling=bool(case.get("sibling")), alt_first=bool(case.get("alt_first")))
     return q
 
 
@@ -259,6 +280,8 @@ def check_case(case, ctx):
     ctx.cls(f"cls:branches={count_nodes(case['tree'])}")
     ctx.cls("cls:style:sibling_alternatives" if case.get("sibling") else "cls:style:nested_alternatives")
     ctx.cls(f"cls:longest_alternative_chain={_longest_alt_chain(case['tree'])}")
+    if case.get("alt_first") and _has_ref_and_alt(case["tree"]):
+        ctx.cls("cls:alternative_declared_before_refinement")
     ctx.cls("cls:caching_on" if case["caching"] else "cls:caching_off")
     tags = {t for t, _ in exp}
     overridden = any(holds(case["tree"][0], o) and fire(case["tree"], o) != case["tree"][1] for o in objs)
